@@ -174,6 +174,7 @@ def rand_universe(rng, o=None, uid=0):
                     at_ = rand_prim(rng, o, allow_occ=False)
                     if rng.random() < .3:
                         at_['min_occurs'] = 1          # a required attribute
+                        (at_.get('facets') or {}).pop('default', None)     # (required AND defaulted is a contradiction XSD refuses)
                     if getattr(o, 'id_href_attrs', False) and rng.random() < .5:
                         # attribute names that SOAP 1.1 section 5 encoding gives a meaning to
                         fn2 = rng.choice(('id', 'href'))
